@@ -52,7 +52,7 @@ func checkValidity(c AlignCase, rm ref.Matrix, res alignResult, o *Obs) error {
 	}
 	if c.Local && len(res.steps) == 0 {
 		// Offsets are unconstrained when there is no alignment; the score must be 0.
-		if res.score != 0 {
+		if !near(res.score, 0, c.M.tol()) {
 			return fmt.Errorf("Local(%q,%q) returned no steps but score %v (%s)", []byte(c.A), []byte(c.B), res.score, matDesc(c.M))
 		}
 	} else {
@@ -63,13 +63,13 @@ func checkValidity(c AlignCase, rm ref.Matrix, res alignResult, o *Obs) error {
 		if !c.Local && (na != len(c.A) || nb != len(c.B)) {
 			return fmt.Errorf("Global(%q,%q) steps %s consume (%d,%d) characters, want (%d,%d)", []byte(c.A), []byte(c.B), stepString(res.steps), na, nb, len(c.A), len(c.B))
 		}
-		if score != res.score {
+		if !near(score, res.score, c.M.tol()) {
 			return fmt.Errorf("%s(%q,%q) claims score %v but its steps %s from (%d,%d) score %v (%s)", name, []byte(c.A), []byte(c.B), res.score, stepString(res.steps), ai, bi, score, matDesc(c.M))
 		}
 	}
 	if c.Local {
 		opt := ref.Optimum(c.A, c.B, rm, true)
-		if opt <= 0 && (len(res.steps) != 0 || res.score != 0) {
+		if tol := c.M.tol(); opt <= 0 && (res.score > tol || res.score < -tol || (tol == 0 && len(res.steps) != 0)) {
 			return fmt.Errorf("Local(%q,%q): no positive-scoring local alignment exists, but got steps %s score %v (%s)", []byte(c.A), []byte(c.B), stepString(res.steps), res.score, matDesc(c.M))
 		}
 		o.ClassIf(len(res.steps) == 0, "local empty result")
@@ -148,7 +148,7 @@ func checkC08(c AlignCase, o *Obs) error {
 		if err := checkValidity(c, rm, again, &Obs{}); err != nil {
 			return fmt.Errorf("after the caller overwrote the steps returned by the first call: %v", err)
 		}
-		if again.score != res.score {
+		if !near(again.score, res.score, c.M.tol()) {
 			return fmt.Errorf("after the caller overwrote the steps returned by the first call, the same call scores %v instead of %v", again.score, res.score)
 		}
 	}
